@@ -960,17 +960,33 @@ package vm
 //@ ghost snapver (Array Int Int)
 //@ ghost snapnext Int
 
+// Native-token ledger (C06): bal[a] is the balance of address a as StateDB.GetBalance reports it, supply the sum
+// of all balances. SubBalance debits only when the balance covers the amount (and reports nothing to the
+// VM); AddBalance stores the absolute value of the sum (AccountDB keeps balances as unsigned big-endian
+// bytes). Both facts are the behaviour of account.AccountDB.SubFT/AddFT, trusted here.
+//@ ghost bal (Array {common.Address} Int)
+//@ ghost supply Int
+//@ ghost snapbal (Array Int (Array {common.Address} Int))
+//@ ghost snapsupply (Array Int Int)
+//@ spec macro fn balOf(a common.Address) Int = @select(ghost(bal), a)
+//@ spec fn absZ(x Int) Int = ite(x >= 0, x, 0 - x)
+
 //@ func StateDB.CreateAccount
 //@   option trusted interface
 //@   modifies ghost(stver)
 
 //@ func StateDB.SubBalance
 //@   option trusted interface
-//@   modifies ghost(stver)
+//@   requires arg1 != nil
+//@   ensures [debit]  old(balOf(arg0)) >= old(big(arg1)) ==> ghost(bal) == @store(old(ghost(bal)), arg0, old(balOf(arg0)) - old(big(arg1))) && ghost(supply) == old(ghost(supply)) - old(big(arg1))
+//@   ensures [refuse] old(balOf(arg0)) < old(big(arg1)) ==> ghost(bal) == old(ghost(bal)) && ghost(supply) == old(ghost(supply))
+//@   modifies ghost(stver), ghost(bal), ghost(supply)
 
 //@ func StateDB.AddBalance
 //@   option trusted interface
-//@   modifies ghost(stver)
+//@   requires arg1 != nil
+//@   ensures [credit] ghost(bal) == @store(old(ghost(bal)), arg0, absZ(old(balOf(arg0)) + old(big(arg1)))) && ghost(supply) == old(ghost(supply)) - old(balOf(arg0)) + absZ(old(balOf(arg0)) + old(big(arg1)))
+//@   modifies ghost(stver), ghost(bal), ghost(supply)
 
 //@ func StateDB.SetNonce
 //@   option trusted interface
@@ -1014,6 +1030,7 @@ package vm
 
 //@ func StateDB.GetBalance
 //@   option trusted interface
+//@   ensures result != nil && big(result) == balOf(arg0)
 //@   modifies nothing
 
 //@ func StateDB.GetNonce
@@ -1072,21 +1089,52 @@ package vm
 //@   option trusted interface
 //@   ensures Z(result) == old(ghost(snapnext)) && ghost(snapnext) == old(ghost(snapnext)) + 1
 //@   ensures ghost(snapver) == @store(old(ghost(snapver)), Z(result), ghost(stver))
-//@   modifies ghost(snapver), ghost(snapnext)
+//@   ensures ghost(snapbal) == @store(old(ghost(snapbal)), Z(result), ghost(bal)) && ghost(snapsupply) == @store(old(ghost(snapsupply)), Z(result), ghost(supply))
+//@   modifies ghost(snapver), ghost(snapnext), ghost(snapbal), ghost(snapsupply)
 
 //@ func StateDB.RevertToSnapshot
 //@   option trusted interface
 //@   ensures ghost(stver) == @select(ghost(snapver), Z(arg0))
-//@   modifies ghost(stver)
+//@   ensures ghost(bal) == @select(ghost(snapbal), Z(arg0)) && ghost(supply) == @select(ghost(snapsupply), Z(arg0))
+//@   modifies ghost(stver), ghost(bal), ghost(supply)
 
 // Value transfer hooks installed in the EVM context (vm.CanTransfer / vm.Transfer in init.go).
+// The two hooks (C06). Transfer moves value only: it needs a non-negative amount that the sender can pay -
+// with a negative amount SubBalance credits the sender and AddBalance debits (or, through the absolute
+// value, credits) the recipient. The field contracts repeat the contracts of the functions installed there.
+//@ func CanTransfer
+//@   property C06
+//@   requires db != nil && amount != nil
+//@   ensures [decides] result == (balOf(addr) >= big(amount))
+//@   modifies nothing
+
+//@ func Transfer
+//@   property C06
+//@   requires db != nil && amount != nil
+//@   requires [nonneg] big(amount) >= 0
+//@   requires [funded] balOf(sender) >= big(amount) && balOf(recipient) >= 0
+//@   ensures [moved]    sender != recipient ==> balOf(sender) == old(balOf(sender)) - old(big(amount)) && balOf(recipient) == old(balOf(recipient)) + old(big(amount))
+//@   ensures [self]     sender == recipient ==> balOf(sender) == old(balOf(sender))
+//@   ensures [others]   forall a common.Address :: a != sender && a != recipient ==> balOf(a) == old(balOf(a))
+//@   ensures [supply]   ghost(supply) == old(ghost(supply))
+//@   modifies ghost(stver), ghost(bal), ghost(supply)
+
 //@ func Context.CanTransfer
 //@   option trusted
+//@   requires arg0 != nil && arg2 != nil
+//@   ensures [decides] result == (balOf(arg1) >= big(arg2))
 //@   modifies nothing
 
 //@ func Context.Transfer
 //@   option trusted
-//@   modifies ghost(stver)
+//@   requires arg0 != nil && arg3 != nil
+//@   requires [nonneg] big(arg3) >= 0
+//@   requires [funded] balOf(arg1) >= big(arg3) && balOf(arg2) >= 0
+//@   ensures [moved]    arg1 != arg2 ==> balOf(arg1) == old(balOf(arg1)) - old(big(arg3)) && balOf(arg2) == old(balOf(arg2)) + old(big(arg3))
+//@   ensures [self]     arg1 == arg2 ==> balOf(arg1) == old(balOf(arg1))
+//@   ensures [others]   forall a common.Address :: a != arg1 && a != arg2 ==> balOf(a) == old(balOf(a))
+//@   ensures [supply]   ghost(supply) == old(ghost(supply))
+//@   modifies ghost(stver), ghost(bal), ghost(supply)
 
 // Running code in a frame: arbitrary state changes, gas only decreases (C11; the interpreter loop itself is
 // not yet under contract: this is an assumption of the frame-level contracts below).
@@ -1094,11 +1142,17 @@ package vm
 //@   option trusted
 //@   requires evm != nil && contract != nil
 //@   ensures contract.Gas <= old(contract.Gas)
-//@   ensures ghost(snapnext) >= old(ghost(snapnext)) && forall i Int :: i < old(ghost(snapnext)) ==> @select(ghost(snapver), i) == @select(old(ghost(snapver)), i)
-//@   modifies ghost(stver), ghost(snapver), ghost(snapnext), contract.Gas, evm.interpreter, evm.callGasTemp, evm.depth
+//@   ensures ghost(snapnext) >= old(ghost(snapnext)) && forall i Int :: i < old(ghost(snapnext)) ==> @select(ghost(snapver), i) == @select(old(ghost(snapver)), i) && @select(ghost(snapbal), i) == @select(old(ghost(snapbal)), i) && @select(ghost(snapsupply), i) == @select(old(ghost(snapsupply)), i)
+//@   # executing code creates no value and leaves no negative balance (C06 at the level of the opcode family: assumed
+//@   # here, proved for the transfer steps of Call/CallCode/create and for vm.Transfer itself)
+//@   ensures [supply] ghost(supply) <= old(ghost(supply)) && ((forall a common.Address :: old(balOf(a)) >= 0) ==> forall a common.Address :: balOf(a) >= 0)
+//@   modifies ghost(stver), ghost(snapver), ghost(snapnext), ghost(bal), ghost(supply), ghost(snapbal), ghost(snapsupply), contract.Gas, evm.interpreter, evm.callGasTemp, evm.depth
 
+// The address of a contract reference is a fixed attribute of the reference.
+//@ spec abstract fn refAddr(c ContractRef) common.Address
 //@ func ContractRef.Address
 //@   option trusted interface
+//@   ensures result == refAddr(this)
 //@   modifies nothing
 
 //@ func PrecompiledContract.RequiredGas
@@ -1116,9 +1170,15 @@ package vm
 
 // Call frames (C12: a failing frame leaves no trace; C11: gas never grows, failed frames consume all gas).
 //@ func EVM.Call
-//@   property C12 C11
+//@   property C12 C11 C06
 //@   option intmode=math
 //@   requires ref(caller) != 0 && evm != nil && value != nil && typeid(caller) != 0 && typeid(evm.StateDB) != 0
+//@   # value transfers move value only (C06): the amount is never negative - callers must establish this - and
+//@   # every balance is non-negative
+//@   requires [nonneg] big(value) >= 0
+//@   requires [wf]     forall a common.Address :: balOf(a) >= 0
+//@   ensures [supply]  ghost(supply) <= old(ghost(supply))
+//@   ensures [wfkept]  forall a common.Address :: balOf(a) >= 0
 //@   ensures [gas]     leftOverGas <= gas
 //@   ensures [failgas] err != nil && err != ErrExecutionReverted && err != ErrDepth && err != ErrInsufficientBalance ==> leftOverGas == 0
 //@   ensures [revert]  err != nil ==> ghost(stver) == old(ghost(stver))
